@@ -138,7 +138,7 @@ SPEC = {
                 'more than 3 tests in 2 layers'],
     'harnesses': [
         {'name': 'contained', 'fn': 'contained', 'params': _P, 'call': _C,
-         'bounds': {'quick': _B + _ONE + ' and (v == 1 or exc == 0) and (not color or (v == 1 and (exc == 0 or exc == 4)))', 'thorough': _B + _TWO + ' and (v == 1 or exc == 0)'},
+         'bounds': {'quick': _B + _ONE + ' and (v == 1 or exc == 0) and (not color or (v == 1 and (exc == 0 or exc == 4)))', 'thorough': _B + _TWO + ' and (v == 1 or exc == 0) and (((ka0 != 0) + (ka1 != 0) + (kb0 != 0) + (su_a != 0) + (su_b != 0) + (td_a != 0) + (td_b != 0) <= 1) or (v == 1 and not color and exc == 0))'},
          'slices': {'quick': ['topo == %d and %s and v == %d and %s and %s' % (t, b, v, c, e) for t in (0, 1) for b in ('buf', 'not buf') for v in range(4) for c in ('color', 'not color')
                               for e in (('exc <= 1', '(exc == 2 or exc == 3)', 'exc >= 4') if v == 1 and c == 'not color' else ('True',)) if c == 'not color' or v == 1],
                     'thorough': ['topo == %d and %s and v == %d and ka0 == %d' % (t, b, v, k) for t in (0, 1) for b in ('buf', 'not buf') for v in range(4) for k in range(NK)]},
